@@ -253,6 +253,55 @@ fn unary_checks(cx: &mut CaseCx, a: &BigUint, ra: &Fp) {
       cx.viol("C07/unary/sqrt_ratio-wrong", format!("sqrt_ratio({},1) root does not square to operand", a), d());
     }
   }
+  // the full contract of sqrt_ratio / sqrt_alt (ff::Field): for num/div a non-residue the returned element is
+  // a square root of ROOT_OF_UNITY * num/div; div = 0 (num != 0) gives (false, 0); num = 0 gives (true, 0)
+  {
+    let rou = fp_to_big(&Fp::ROOT_OF_UNITY);
+    let half = (rm::p() - BigUint::one()) >> 1;
+    let residue = |x: &BigUint| x.is_zero() || rm::powm(x, &half).is_one();
+    for dv in [BigUint::one(), BigUint::from(3u32), BigUint::from(12451u32), rm::p() - BigUint::one(), BigUint::zero()] {
+      let rd = real(&dv);
+      cx.eval();
+      let (flag, r) = match guard(|| Fp::sqrt_ratio(ra, &rd)) {
+        Ok(x) => x,
+        Err(p) => {
+          cx.viol("C07/panic/sqrt_ratio", format!("sqrt_ratio({},{}) panicked: {}", a, dv, p.chars().take(200).collect::<String>()), d());
+          return;
+        }
+      };
+      let rb = fp_to_big(&r);
+      let sq = rm::mulm(&rb, &rb);
+      let dd = || json!({"num": a.to_string(), "div": dv.to_string(), "returned_flag": bool::from(flag), "returned_element": rb.to_string()});
+      if a.is_zero() {
+        if !bool::from(flag) || !rb.is_zero() {
+          cx.viol("C07/unary/sqrt_ratio-contract", format!("sqrt_ratio(0,{}) must be (true, 0)", dv), dd());
+        }
+      } else if dv.is_zero() {
+        if bool::from(flag) || !rb.is_zero() {
+          cx.viol("C07/unary/sqrt_ratio-contract", format!("sqrt_ratio({},0) must be (false, 0)", a), dd());
+        }
+      } else {
+        let ratio = rm::mulm(a, &rm::invm(&dv).unwrap());
+        if residue(&ratio) {
+          if !bool::from(flag) || sq != ratio {
+            cx.viol("C07/unary/sqrt_ratio-contract", format!("sqrt_ratio({},{}): the ratio is a square, so the result must be (true, a root of it)", a, dv), dd());
+          }
+        } else if bool::from(flag) || sq != rm::mulm(&rou, &ratio) {
+          cx.viol("C07/unary/sqrt_ratio-contract", format!("sqrt_ratio({},{}): the ratio is a non-residue, so the result must be (false, a square root of ROOT_OF_UNITY * ratio); the returned element squares to {}", a, dv, sq), dd());
+        }
+      }
+    }
+    // sqrt_alt(x) = sqrt_ratio(x, 1)
+    cx.eval();
+    if let Ok((flag, r)) = guard(|| ra.sqrt_alt()) {
+      let rb = fp_to_big(&r);
+      let sq = rm::mulm(&rb, &rb);
+      let want = if residue(a) { a.clone() } else { rm::mulm(&rou, a) };
+      if bool::from(flag) != residue(a) || sq != want {
+        cx.viol("C07/unary/sqrt_alt-contract", format!("sqrt_alt({}) = ({}, {}) does not satisfy the contract (square root of x, or of ROOT_OF_UNITY * x for a non-residue)", a, bool::from(flag), rb), d());
+      }
+    }
+  }
   for e in exps() {
     let l = limbs(&e);
     cmp(cx, "pow(a,e)", "unary/pow", &ra.pow(l), &rm::powm(a, &e), || json!({"a": a.to_string(), "e": e.to_string()}));
@@ -554,7 +603,7 @@ pub fn spec() -> PropSpec {
       },
       Check {
         name: "lattice-unary",
-        rule: "every lattice element x {neg,double,square,cube,invert,sqrt,sqrt_ratio,pow/pow_vartime by 10 exponents,is_zero,is_odd,from_str,from_u128,from_u64,Vec<u8>}; distinct = elements",
+        rule: "every lattice element x {neg,double,square,cube,invert,sqrt,sqrt_ratio over 5 divisors incl. 0 and sqrt_alt with the full ff contract (non-residue ratio: a root of ROOT_OF_UNITY*ratio),pow/pow_vartime by 10 exponents,is_zero,is_odd,from_str,from_u128,from_u64,Vec<u8>}; distinct = elements",
         gen: |_| (0..lattice().len()).map(|i| json!({"idx": i})).collect(),
         run: run_unary,
         min_counts: &[("evaluations", 2_000)],
